@@ -37,6 +37,18 @@ CHECKS = {
         text="Random databases with every value type, OID lists with duplicates/absent/end-of-view objects, all operations and all seven security levels; the monitor compares each result with the database semantics and with the agent's wire bindings (independently decoded); an injected-fault class adds/drops a binding or oversizes a GETBULK answer inside otherwise authentic responses and requires SnmpError.",
         ref="DESIGN.md 4/C04",
     ),
+    "C05": dict(
+        cat="exploration",
+        technique="runtime monitoring: every datagram at the sender seam decoded by an independent strict BER/SNMP decoder and compared with the call's intent",
+        text="All operations with generated OIDs (2..128 arcs, sub-identifiers to 2^32-1), SET values of every type at byte boundaries, communities 0..300, context names/engine ids, request ids swept through the clock and the id source, on v1/v2c/five v3 levels (privacy undone with the independently localised key). The request-id is decided behaviourally (echo accepted, id+1 refused). Two x690 OID-encoding defects are listed as known findings keyed by the observed wire deviation.",
+        ref="DESIGN.md 4/C05",
+    ),
+    "C06": dict(
+        cat="exploration",
+        technique="runtime monitoring: delivered values vs independent decoding of the same response bytes; re-encodings re-read by the independent decoder",
+        text="Responses are produced by the independent encoder in every definite length form chosen per nesting level, for every value type over its range, lists of 0..200, on seven levels; the monitor compares what Client.multiget delivers with what vf.ber reads from the same bytes and checks that re-encoded Message/ScopedPDU/USM parameters/PDU carry the same content.",
+        ref="DESIGN.md 4/C06",
+    ),
     "C08": dict(
         cat="exploration",
         technique="runtime monitoring: exception class/offending-OID monitor over the full error-status x error-index x operation x level matrix",
